@@ -26,6 +26,12 @@ SEEDS_WI = [
     "start: b_without_invalid c NEWLINE\nb_without_invalid: NAME b_without_invalid | NUMBER | invalid_x\n"
     "c: invalid_x | ','\ninvalid_x: ';' { foo() }\n",
 ]
+# a rule that is left-recursive ONLY through an error-reporting alternative and can match the empty string: with error
+# mode off it must behave like the rule without that alternative (the seed-growing loop must keep a first empty match)
+SEEDS_LR = [
+    "start: a 'z' NEWLINE\na: 'q'? 'w'? | a invalid_x\ninvalid_x: 'w' { foo() }\n",
+    "start: a NUMBER NEWLINE\na: NAME? ','? | !a invalid_x NAME\ninvalid_x: NUMBER { foo() }\n",
+]
 
 
 def mentions_invalid(it) -> bool:
@@ -101,6 +107,8 @@ def grammars(tier):
             yield (f"start: a NEWLINE\na: NUMBER {p} NAME | NUMBER NAME* | NAME\ninvalid_x: NAME NAME {{ foo() }} | NUMBER {{ foo() }}\n"
                    .replace("invalid_x", nm))
     for t in SEEDS_WI:
+        yield t
+    for t in SEEDS_LR:
         yield t
     r = common.rng("c12")
     kn = gramgen.Knobs(terminals=("NAME", "NUMBER", "','", "NEWLINE"), invalid=True, left_rec=False, p_ref=0.5,
